@@ -96,10 +96,12 @@ def handleHist (id : Nat) (hdr : List Sexp) (body0 : List Sexp) : String :=
 
 `rounds` times every task of service j (`k_j` tasks; a service = one DebugBatch name, any dictionary key) awaits a
 fresh `DebugBatchItem(name_j, payload)`.  The model of C11 has no scheduler, so NO theorem speaks about these cases;
-they are judged by this direct expectation, which is what C11 says about them: every task gets its payloads back (a
-request made after a flush joins a fresh, pending batch - never the finished one); per service exactly `rounds` batches
-got items, each of them `k_j`, each was announced exactly once, with no item pending, when it was no longer the active
-batch, and ended flushed (not cancelled); afterwards the active batch of the name is pending, empty and a new object. -/
+they are judged by this direct expectation.  Consequences of C11: every task gets its payloads back (a request made
+after a flush joins a fresh, pending batch - never the finished one); every batch that got items was announced exactly
+once, with no item pending, when it was no longer the active batch, and ended flushed (not cancelled); afterwards the
+active batch of the name is pending, empty and a new object.  NOT C11 but the scheduler's batching behaviour (C04's
+subject), kept as a regression expectation of today's code: per service exactly `rounds` batches got items
+(`sched-batches-N-for-R-rounds`), each of them `k_j` (`sched-batch-size`). -/
 
 structure SB where
   svc : Nat
